@@ -241,7 +241,7 @@ class Generator {
         return o;
       }
       case OP_ABANDON: return mk(k, rng_.below(4));
-      case OP_ASSIGN_SEQ: { Op o = mk(k, rng_.below(12), rng_.below(12)); o.a[2] = rng_.below(3); o.a[3] = rng_.chance(1, 3) ? 1 : 0; return o; }
+      case OP_ASSIGN_SEQ: { Op o = mk(k, rng_.below(12), rng_.below(12)); o.a[2] = rng_.below(3); o.a[3] = rng_.chance(1, 3) ? 1 : rng_.chance(1, 5) ? 2 : 0; return o; }
       case OP_WIDE: return mk(k, rng_.below(64), rng_.below(50));
       case OP_DESTROY_MOCK: case OP_DESTROY_SEQ: case OP_DESTROY_WATCHED: { Op o = mk(k, rng_.below(12)); if (rng_.chance(1, 6)) o.a[3] = 1; return o; }   // a[3]: destroyed by stack unwinding
       default: return mk(k, rng_.below(12));
